@@ -248,11 +248,24 @@ class Summariser:
             s2.orelse = [_subst(x, inner_env) for x in s.orelse]
             q.effects.append(s2)
             _kill(q.env, killed)
-            # a return inside the loop is a possible end of the path
-            for r in [n for x in s.body for n in ast.walk(x) if isinstance(n, ast.Return)]:
-                r2 = self._fork(q)
-                r2.tests.append((ast.Constant("<inside loop>"), True))
-                self._end(r2, "return", _subst(r.value, inner_env), r)
+            # a return / raise inside the loop is a possible end of the path: summarise the body once (one iteration,
+            # loop-carried names unknown) and keep the ends that leave the function
+            hdr = s2.iter if isinstance(s, ast.For) else s2.test
+            marker = ast.Call(func=ast.Name(id="in_loop_", ctx=ast.Load()), args=[hdr] + ([copy.deepcopy(s.target)] if isinstance(s, ast.For) else []), keywords=[])
+            if any(isinstance(n, (ast.Return, ast.Raise)) for x in s.body for n in ast.walk(x)):
+                sub = Summariser(self.bound, in_loop=True)
+                start = Path(env=dict(inner_env))
+                try:
+                    sub._block(list(s.body), start, lambda r: sub._end(r, "fall", None, None))
+                except PathBound:
+                    raise
+                for sp in sub.out:
+                    if sp.kind in ("return", "raise"):
+                        r2 = self._fork(q)
+                        r2.effects = list(p.effects)
+                        r2.tests = list(q.tests) + [(marker, True)] + list(sp.tests)
+                        r2.effects += list(sp.effects)
+                        self._end(r2, sp.kind, sp.value, sp.node)
             nxt(q)
             return
         if isinstance(s, ast.With):
